@@ -334,6 +334,15 @@ pub fn build_cases(ctx: &Ctx, rng: &mut Rng) -> Vec<Case> {
             push(alg, lv, Plan::Walk { from: 0, count: total }, rng, &mut cases);
         }
     }
+    // keys that share one seed but differ below the top level (and at the top level): anything
+    // the library remembers per seed or per tree identifier instead of per full input shows here
+    for alg in model::ALL_ALGS {
+        let shared_seed = rng.bytes(alg.n());
+        for spec in [vec![(2u32, 4u32), (2, 4)], vec![(2, 4), (2, 8)], vec![(2, 4), (5, 4)], vec![(2, 8), (2, 4)], vec![(2, 4), (2, 4), (2, 2)], vec![(2, 4)]] {
+            let tag = format!("{}", cases.len() + 1);
+            cases.push(Case { alg, levels: levels(&spec), seed: shared_seed.clone(), plan: Plan::Points(vec![0, 5]), tag });
+        }
+    }
     // tall trees: H15 end to end (quick: three hashes, one point each), thorough also H15 inside
     // multi-level keys and one H20 tree; H25 is out of reach for any execution-based check
     let tall: Vec<(Alg, Vec<(u32, u32)>, Vec<u64>)> = if ctx.quick() {
